@@ -743,21 +743,36 @@ class DiffXFileSection(ContainerOptionsMixin,
         if not self.diff or self.diff_type == DiffType.BINARY:
             return
 
+        diff = self.diff
+        diff_encoding = self.diff_encoding
+
+        if diff_encoding:
+            # The hunk parser looks for ASCII characters. Convert the diff to
+            # an encoding where it can find them (which is not the case for
+            # the likes of UTF-16 or EBCDIC).
+            try:
+                diff = diff.decode(diff_encoding).encode('utf-8')
+                diff_encoding = 'utf-8'
+            except Exception as e:
+                logger.error('Error decoding the diff for %r: %s',
+                             self, e)
+                return
+
         if self.diff_line_endings:
             # This function can raise an exception, but only if the line
             # endings aren't a supported type. Our property already validates
             # this, so we should be fine, unless someone's done something
             # very wrong.
             newline = get_newline_for_type(self.diff_line_endings,
-                                           encoding=self.diff_encoding)
+                                           encoding=diff_encoding)
         else:
             line_endings, newline = guess_line_endings(
-                self.diff,
-                encoding=self.diff_encoding)
+                diff,
+                encoding=diff_encoding)
 
         try:
             hunks_info = get_unified_diff_hunks(
-                split_lines(data=self.diff,
+                split_lines(data=diff,
                             newline=newline),
                 ignore_garbage=True)
         except Exception as e:
